@@ -92,6 +92,10 @@ def judge_pty(ctx, op, ret, exc, acc, case):
                         'after %s the child is %s' % (op, 'an unreaped zombie' if zombie else 'still running (%s)' % st[0])))
         if op == 'terminateF' and ret is not True:
             out.append(('terminate-force-returns-false', 'terminate(force=True) returned %r' % (ret,)))
+    if exc is not None and op in ('terminateF', 'close', 'with_exc') and not gone:
+        acc.count('invariant_I2')
+        out.append(('forced-' + ('terminate' if op == 'terminateF' else 'close') + '-fails-child-survives',
+                    '%s raised %s and the child is %s' % (op, type(exc).__name__, 'a zombie' if zombie else 'still running')))
     # I3
     if exc is None and op in ('close', 'closeNF', 'with_exc'):
         acc.count('invariant_I3')
